@@ -9,7 +9,8 @@ import z3
 from .values import SV, TRUE, FALSE, Unmodelled
 from .sqlsem import Row
 
-SORTS = {int: 'int', bool: 'bool', str: 'str', float: 'real'}
+import datetime as _dt
+SORTS = {int: 'int', bool: 'bool', str: 'str', float: 'real', _dt.date: 'date'}
 
 
 class AttrInfo(object):
@@ -93,7 +94,10 @@ def build(db, R=2, strlen=3, prefix=''):
             for r in rows:
                 if col in r.cols: continue
                 base = '%s%s_%d_%s' % (prefix, info.table, r.slot, col)
-                t = {'int': z3.Int, 'bool': z3.Bool, 'str': z3.String, 'real': z3.Real}[sort](base)
+                if sort == 'date':
+                    t = date_term(base, S.constraints)
+                else:
+                    t = {'int': z3.Int, 'bool': z3.Bool, 'str': z3.String, 'real': z3.Real}[sort](base)
                 # a column declared on a subclass is nullable at table level
                 tbl_nullable = nullable or (attr.entity is not ent._root_)
                 n = z3.Bool(base + '_null') if tbl_nullable else FALSE
@@ -203,6 +207,14 @@ def printable(t):
     return z3.InRe(t, _PRINTABLE)
 
 
+def date_term(base, constraints):
+    """a calendar date as the integer yyyymmdd (ordered like the dates, and like SQLite's 'YYYY-MM-DD' text); days 1..28 so that
+    every (y, m, d) is a real date"""
+    y, mo, d = z3.Int(base + '_y'), z3.Int(base + '_m'), z3.Int(base + '_d')
+    constraints += [y >= 1, y <= 9999, mo >= 1, mo <= 12, d >= 1, d <= 28]
+    return y * 10000 + mo * 100 + d
+
+
 def const_term(c):
     if isinstance(c, bool): return z3.BoolVal(c)
     if isinstance(c, int): return z3.IntVal(c)
@@ -235,6 +247,9 @@ def model_value(m, sv):
     if mtrue(m, sv.n): return None
     v = z3.simplify(m.eval(sv.t, model_completion=True))
     if sv.sort in ('int',): return v.as_long()
+    if sv.sort == 'date':
+        k = v.as_long()
+        return _dt.date(k // 10000, k // 100 % 100, k % 100)
     if sv.sort in ('bool', 'cond'): return mtrue(m, sv.t)
     if sv.sort == 'str': return z3str(v)
     if sv.sort == 'real':
